@@ -119,7 +119,9 @@ CLAIMED = {
         text="Lean 4 theorems over a model of rxprefilter.go on the regexp/syntax tree: (see Properties/C11.lean) the "
              "substring and multi-needle matchers are exact, the minimum length and the extracted literals are necessary "
              "conditions of a match under an over-approximating match relation, hence the prefilter never rejects an input "
-             "the regex matches and @rx with the prefilter on equals @rx with it off. Tied to /repo by `rxpf`: the real "
+             "the regex matches and @rx with the prefilter on equals @rx with it off; the exact-match fast path: for every literal and "
+             "every value without a newline, (?sm)^literal$ matches iff the value is the literal (C11_exact_fastpath, on the exact "
+             "regex semantics of Proofs/Regex.lean). Tied to /repo by `rxpf`: the real "
              "operator on/off on CRS + generated patterns, prefilter verdicts vs the model.",
         note=_TB + "Partial: regexp/syntax and the regexp engine are outside Lean; the theorems assume the engine matches "
                    "only what the stated match relation allows.",
